@@ -7,7 +7,8 @@ step : `<tz>#<name>:<val>,<name>:<val>,...`  (`_` = no variables); val = items j
        `i<int>` integer, `r<k>` reference to heap object k, `e` the empty sequence
 expr : prefix code —  I n | V x | E | S a b | P e | A a b (+) | M a b (-) | Q a b (=) | D loc tz
        | Z e (timezone-from-dateTime) | L x e b (let) | F x r b (for) | O x r b (some) | Y x r b (every)
-       | N k p1..pk b (inline function) | C0 f | C f args
+       | N k p1..pk b (inline function) | C0 f | C f args | K secs (xs:dayTimeDuration literal)
+       | J e (adjust-dateTime-to-timezone, 1 argument) | J2 e z (2 arguments)
 Answer: one record per step joined by `|`:
   m=<model result> s=<spec result> env=<1 if the model hands back the caller's dict unchanged>
   heap=<caller's objects after the step> ws=<1 if WS lex true (dom ρ) e, i.e. outside trigger F05c>
@@ -24,6 +25,9 @@ partial def parseE : List String → Option (Expr × List String)
   | "E" :: r => some (.empty, r)
   | "P" :: r => do let (e, r) ← parseE r; pure (.paren e, r)
   | "Z" :: r => do let (e, r) ← parseE r; pure (.tzOf e, r)
+  | "J" :: r => do let (e, r) ← parseE r; pure (.adjust1 e, r)
+  | "J2" :: r => do let (a, r) ← parseE r; let (b, r) ← parseE r; pure (.adjust2 a b, r)
+  | "K" :: k :: r => (int? k).map fun n => (.durLit n, r)
   | "C0" :: r => do let (e, r) ← parseE r; pure (.call0 e, r)
   | "S" :: r => do let (a, r) ← parseE r; let (b, r) ← parseE r; pure (.seq a b, r)
   | "A" :: r => do let (a, r) ← parseE r; let (b, r) ← parseE r; pure (.add a b, r)
@@ -117,7 +121,7 @@ def answer (line : String) : String :=
     | some steps =>
       let etoks := (((line.splitOn " E=").getD 1 "").splitOn " ").filter (· ≠ "")
       let lex := field fs "LEX" == "1"
-      let q : Quirks := ⟨true, true, lex⟩
+      let q : Quirks := ⟨true, true, true, lex⟩
       match parseE etoks with
       | some (e, []) =>
         let pinnedOuts := (runHistory .pinned fuel e steps h0).1
